@@ -51,6 +51,17 @@ Theorem C06_buffer_refines_concat : forall cap ops,
 Proof. exact buffer_refines_concat. Qed.
 Print Assumptions C06_buffer_refines_concat.
 
+(* ... and never asks for a slice longer than its capacity: whatever is appended, from whatever initial capacity, every
+   allocation inside grow is legal (newLen <= newCap) and the length stays within the capacity *)
+Theorem C06_buffer_allocation_is_legal : forall b add, buf_ok b -> (0 <= add)%Z ->
+  (zlen (buf_data b) + add <= buf_cap (grow b add))%Z /\ (0 <= buf_cap (grow b add))%Z.
+Proof. exact grow_allocation_is_legal. Qed.
+Print Assumptions C06_buffer_allocation_is_legal.
+Theorem C06_buffer_length_within_capacity : forall cap ops, (0 <= cap)%Z ->
+  buf_ok (fold_left buf_step ops (buf_new cap)).
+Proof. exact buffer_length_within_capacity. Qed.
+Print Assumptions C06_buffer_length_within_capacity.
+
 (* the hex parser reads digit strings as numbers, without wrap-around as long as the value fits 64 bits *)
 Theorem C06_hex_digits : forall ns acc,
   Forall (fun d => (0 <= d < 16)%Z) ns -> (0 <= acc)%Z -> (nib_val acc ns < two64)%Z ->
